@@ -150,6 +150,13 @@ func (state *RuntimeState) webauthnFinishRegistration(w http.ResponseWriter, r *
 		return
 	}
 
+	// A registration is only finished by POST (as the page's script does):
+	// checkAuth does not compare the Origin/Referer of GET requests.
+	if r.Method != "POST" {
+		state.writeFailureResponse(w, r, http.StatusMethodNotAllowed, "")
+		return
+	}
+
 	// load the session data
 	credential, err := state.webAuthn.FinishRegistration(profile, *profile.WebauthnSessionData, r)
 	if err != nil {
